@@ -21,6 +21,16 @@ def called(p, pattern):
     return [e for e in p.events if e.kind == "call" and re.search(pattern, e.callee)]
 
 
+_res = {}
+
+
+def _resolves(prog):
+    if "v" not in _res:
+        from obligations import C05_e2
+        _res["v"] = C05_e2.hardlink_resolves(prog)
+    return _res["v"]
+
+
 def _st(p):
     st = mirsym.State()
     st.mem = p.mem
@@ -140,7 +150,9 @@ def run():
             elif op == "symlink":
                 expected.append("ln -s {%s} {%s}" % (a[0], a[1]))
             elif op == "hardlink":
-                expected.append("ln {%s} {%s}" % (a[0], a[1]))
+                # fs::hard_link does not follow a symlink given as the source, like `ln` (GNU default -P); a wrapper that resolves
+                # the source first corresponds to `ln -L`
+                expected.append(("ln -L {%s} {%s}" if _resolves(prog) else "ln {%s} {%s}") % (a[0], a[1]))
             elif op == "unsafe_copy":
                 expected.append("cp {%s} {%s}" % (a[0], a[1]))
         seen += 1
